@@ -1,7 +1,11 @@
 (* Properties_C07.v -- C07: JSON parsing is all-or-nothing.
    Statements only; proofs in JsonProofsParse.v.  [Val w r v r'] (JsonSpec.v) is the accepted
    language as an inductive grammar: value [v] read off the front of [r] leaving [r'];
-   [Document w s v]: whitespace, one value, whitespace. *)
+   [Document w s v]: whitespace, one value, whitespace.
+   The grammar is the one of the reader AFTER the repairs D92 and D93: inside a string a backslash-u escape has exactly four
+   hexadecimal digits, and a high surrogate escape is followed by a second backslash-u escape (four hexadecimal digits, value
+   unchecked).  "Undefined exactly when the text is not a document" (c07_rejected_iff_not_document) speaks about this stricter
+   grammar: texts such as ["\u1","abcd"], ["\u00zz"] or ["\uD800abcde","]"], accepted before, are not documents. *)
 From Coq Require Import NArith ZArith List Bool.
 From Qv Require Import gen.Tables_json JsonModel JsonSpec JsonProofsBase JsonProofsStr JsonProofsNum JsonProofsParse
   JsonProofsComplete JsonProofsDoc JsonProofsCst JsonProofsInt JsonProofsC06 JsonProofsPrefix JsonProofsDamage
@@ -131,3 +135,23 @@ Example c07_d92_rejected :
   parse 0 [91; 34; 92; 117; 68; 56; 48; 48; 97; 98; 99; 100; 101; 34; 44; 34; 93] = JOk JUndef /\
   parse 0 [91; 34; 92; 117; 68; 56; 48; 48; 97; 98; 99; 100; 101; 34; 44; 34; 93; 34; 93] = JOk JUndef.
 Proof. split; vm_compute; reflexivity. Qed.
+
+(* D93: a hexadecimal group with fewer than four hexadecimal digits makes the string reader fail (count 0), in the first escape
+   and in the second half of a pair; before the repair the value of the digits read so far was used and four units were skipped
+   regardless, which could swallow the closing quote of the string.  The two texts of the finding *)
+Theorem c07_short_hex_escape_rejected : forall f w ch t k pend st,
+  esc_simple ch = None -> is_u ch = true -> (hexcount 4 t =? 4)%nat = false ->
+  unesc (S f) w (jc_bslash :: ch :: t) k pend st = JOk (O, st ++ pend).
+Proof. exact unesc_short_hex_rejected. Qed.
+Print Assumptions c07_short_hex_escape_rejected.
+Theorem c07_short_low_half_rejected : forall f w ch h1 h2 h3 h4 ch2 t k pend st,
+  esc_simple ch = None -> is_u ch = true -> is_high (hex4v h1 h2 h3 h4) = true -> is_u ch2 = true ->
+  (hexcount 4 t =? 4)%nat = false ->
+  unesc (S f) w (jc_bslash :: ch :: h1 :: h2 :: h3 :: h4 :: jc_bslash :: ch2 :: t) k pend st = JOk (O, st ++ pend).
+Proof. exact unesc_short_low_rejected. Qed.
+Print Assumptions c07_short_low_half_rejected.
+Example c07_d93_rejected :
+  parse 0 [91; 34; 92; 117; 49; 34; 44; 34; 97; 98; 99; 100; 34; 93] = JOk JUndef /\
+  parse 0 [91; 34; 92; 117; 48; 48; 122; 122; 34; 93] = JOk JUndef /\
+  parse 0 [91; 34; 92; 117; 68; 56; 51; 68; 92; 117; 68; 69; 34; 44; 34; 48; 48; 34; 93] = JOk JUndef.
+Proof. repeat split; vm_compute; reflexivity. Qed.
